@@ -267,17 +267,45 @@ def canon(w):
     return (frozenset(cs.block_by_hash.keys()), cs.current_chain_hash, w.pool_ids())
 
 
-def _expand(trace):
+PROBES = ('net:A-valid', 'net:C-valid-2in', 'direct:E-overlaps-A-and-C', 'relay:extend-a', 'relay:extend-e')
+PROBE_DEPTH = {'quick': 2, 'thorough': 3}
+
+
+def _expand(arg):
+    trace, probe = arg
     w, _, _ = execute(trace)
     names = [e[0] for e in events(w)]
+    key0 = canon(w)
     res = []
+    base = {}
+    noeffect = []
     for nm in names:
         t2 = tuple(trace) + (nm,)
         w2, bad, outcome = execute(t2)
         if bad is None:
             continue
-        res.append((nm, canon(w2), [b for b in bad if b[2] == t2], outcome, len(w2.pool())))
-    return trace, res
+        k2 = canon(w2)
+        res.append((nm, k2, [b for b in bad if b[2] == t2], outcome, len(w2.pool())))
+        base[nm] = (outcome, k2)
+        if k2 == key0:
+            noeffect.append(nm)
+    # operations without a visible effect must not leave an invisible one: the same probe operations must behave exactly as
+    # they do without the no-effect operation in front of them (differential against the sibling transition)
+    nprobe = 0
+    if probe:
+        for nm in noeffect:
+            for p in PROBES:
+                if p not in base or p == nm:
+                    continue
+                t3 = tuple(trace) + (nm, p)
+                w3, bad3, out3 = execute(t3)
+                if bad3 is None:
+                    continue
+                nprobe += 1
+                if (out3, canon(w3)) != base[p]:
+                    res.append((nm, key0, [('no-effect-operation-left-a-trace', "after '%s' (which changed nothing observable) the "
+                                            "operation '%s' ends %s, without it %s" % (nm, p, out3, base[p][0]), t3)], 'probe', 0))
+    return trace, res, nprobe
 
 
 def run(ctx):
@@ -294,10 +322,15 @@ def run(ctx):
         if ctx.seed:
             import random
             random.Random(ctx.seed + d).shuffle(frontier)
-        res = ctx.pmap(_expand, frontier, chunksize=max(1, len(frontier) // (ctx.ncpu * 4)))
+        res = ctx.pmap(_expand, [(f, d < PROBE_DEPTH[ctx.tier]) for f in frontier])
         nxt = []
-        for trace, lst in sorted(res, key=lambda r: r[0]):
+        for trace, lst, nprobe in sorted(res, key=lambda r: r[0]):
+            stats['probes'] = stats.get('probes', 0) + nprobe
             for nm, key, bad, outcome, npool in lst:
+                if outcome == 'probe':
+                    for k, what, tr in bad:
+                        ctx.violation(k, "%s; operations %s" % (what, list(tr)), {'trace': list(tr), 'probe': True})
+                    continue
                 stats['transitions'] += 1
                 gen = nm.split(':')[0] + ':' + nm.split(':')[1].split('-side-')[0]
                 e = hist.setdefault(gen, {})
@@ -315,6 +348,7 @@ def run(ctx):
     ctx.cov.update({
         'states': stats['states'], 'transitions': stats['transitions'], 'traces_validated_against_impl': stats['transitions'],
         'samples': [sample or [], ['net:A-valid', 'relay:extend-b']], 'outcome_histogram': hist, 'largest_pool': maxpool,
+        'no_trace_probes': stats.get('probes', 0),
         'depth': depth, 'exhaustive': True,
         'rule': "BFS over operation sequences to depth %d (submissions via the network handler and via add_transaction_to_pool; "
                 "head changes via relayed blocks and via set_coinstate), state = history replayed on a fresh node, de-duplicated "
@@ -325,6 +359,12 @@ def run(ctx):
 def replay(data, ctx):
     setup_worker()
     t = tuple(data['trace'])
+    if data.get('probe'):
+        w1, b1, o1 = execute(t)
+        w0, b0, o0 = execute(t[:-2] + t[-1:])
+        if b1 is not None and b0 is not None and (o1, canon(w1)) != (o0, canon(w0)):
+            return [('no-effect-operation-left-a-trace', 'reproduced')]
+        return []
     w, bad, outcome = execute(t)
     if bad is None:
         return []
